@@ -27,15 +27,18 @@
     `write_text_node`; read (fix_2: untrimmed) with `set_address_str`: a text `is_address` accepts is un-doubled
     and parsed into the address, anything else is kept as text.
   * `<colorScale>` / `<dataBar>` / `<iconSet>` (fix_3: the icon set was written and looked for as `dataBar`): all
-    `<cfvo>` children, then all `<color>` children; a colour without any attribute is NOT written
-    (`Color::write_to`).  A colour's `tint` is an `f64` printed with `to_string` and parsed back with
+    `<cfvo>` children, then all `<color>` children, one element per colour of the collection — also for a colour
+    without any attribute (`Color::write_to_color_of_list`, fix 8f9bb711; before, `Color::write_to` wrote nothing
+    for it).  A colour's `tint` is an `f64` printed with `to_string` and parsed back with
     `parse::<f64>`; it is carried here as its decimal text (Rust's shortest round-trip printing is in the trusted
     base, as for every float in C01–C06).
   * Readers only look at direct children with the exact (unprefixed) names; anything else is skipped.  The
     `Event::Start`-only arms (`colorScale`, `dataBar`, `iconSet`, `formula` under `cfRule`; `cfvo` / `color` under
     `dataBar` / `iconSet` are `Event::Empty`-only) cannot be told from their empty-element spelling in a tree: the
     model reads both, the code only the spelling this library writes.  Foreign spellings are outside the model.
-  * `<conditionalFormatting sqref=…>`: `sqref` always written (empty for no ranges), rules in collection order.
+  * `<conditionalFormatting sqref=…>`: `sqref` always written (empty for no ranges), rules in collection order;
+    a block without rules is not written at all (fix bc044095; before, as an empty element the reader skips);
+    `sqref=""` reads as no range (fix 13062503).
   Core Lean only.
 -/
 import Umya.Model.AnnotDv
@@ -218,8 +221,11 @@ def colorValues (c : Color) : List (Option Text) :=
   | none, some i => [none, some (decDigits i), none, c.tint]
   | none, none => [none, none, c.argb, c.tint]
 
-/-- `Color::write_to`: nothing at all when there is no attribute to write -/
-def writeColor (c : Color) : List Node :=
+/-- `Color::write_to_color_of_list`: the element, with whatever attributes there are (none included) -/
+def writeColor (c : Color) : Node := .elem "color".toList (render colorNames (colorValues c)) []
+
+/-- `Color::write_to` (what the scales used before fix 8f9bb711): nothing at all when there is no attribute to write -/
+def writeColorOld (c : Color) : List Node :=
   match render colorNames (colorValues c) with
   | [] => []
   | as => [.elem "color".toList as []]
@@ -235,7 +241,11 @@ structure Scale where
   deriving Repr, DecidableEq
 
 def writeScale (name : Text) (s : Scale) : Node :=
-  .elem name [] (s.cfvos.map writeCfvo ++ s.colors.flatMap writeColor)
+  .elem name [] (s.cfvos.map writeCfvo ++ s.colors.map writeColor)
+
+/-- before fix 8f9bb711 -/
+def writeScaleOld (name : Text) (s : Scale) : Node :=
+  .elem name [] (s.cfvos.map writeCfvo ++ s.colors.flatMap writeColorOld)
 
 /-- the event loop of `ColorScale` / `DataBar` / `IconSet::set_attributes` -/
 def readScaleKids : List Node → Scale → Res Scale
@@ -431,10 +441,13 @@ def writeRules : List Sty → List Rule → List Sty × List Node
     let b := writeRules a.1 rs
     (b.1, a.2 :: b.2)
 
-/-- `ConditionalFormatting::write_to` -/
-def writeBlock (tbl : List Sty) (b : Block) : List Sty × Node :=
-  let w := writeRules tbl b.rules
-  (w.1, .elem "conditionalFormatting".toList [⟨"sqref".toList, sqrefText b.sqref⟩] w.2)
+/-- the `<conditionalFormatting>` element of a block -/
+def blockElem (tbl : List Sty) (b : Block) : Node :=
+  .elem "conditionalFormatting".toList [⟨"sqref".toList, sqrefText b.sqref⟩] (writeRules tbl b.rules).2
+
+/-- `ConditionalFormatting::write_to`: nothing for a block without rules (fix bc044095) -/
+def writeBlock (tbl : List Sty) (b : Block) : List Sty × List Node :=
+  ((writeRules tbl b.rules).1, if b.rules.isEmpty then [] else [blockElem tbl b])
 
 /-- the loop of `writer/xlsx/worksheet.rs` over `get_conditional_formatting_collection()` (and over the sheets:
     the same function on the concatenation of their collections) -/
@@ -443,7 +456,10 @@ def writeBlocks : List Sty → List Block → List Sty × List Node
   | tbl, b :: bs =>
     let a := writeBlock tbl b
     let r := writeBlocks a.1 bs
-    (r.1, a.2 :: r.2)
+    (r.1, a.2 ++ r.2)
+
+/-- the blocks that are written: those with a rule (the `norm` of the round trip) -/
+def writtenBlocks (bs : List Block) : List Block := bs.filter fun b => !b.rules.isEmpty
 
 def readRules (tbl : List Sty) : List Node → Res (List Rule)
   | [] => .ok []
@@ -468,8 +484,8 @@ def readBlock (tbl : List Sty) (n : Node) : Res Block :=
     | _, _ => .panic
 
 /-- the worksheet reader: one block per `<conditionalFormatting>`, in document order.  The arm sits under
-    `Event::Start` only: the empty-element spelling — which is how `write_to` spells a block without rules — is
-    skipped (an element without children stands for that spelling here). -/
+    `Event::Start` only: the empty-element spelling — which is how `write_to` spelled a block without rules before
+    fix bc044095 — is skipped (an element without children stands for that spelling here). -/
 def readBlocks (tbl : List Sty) : List Node → Res (List Block)
   | [] => .ok []
   | .elem _ _ [] :: r => readBlocks tbl r
